@@ -143,7 +143,8 @@ PROPS["C03"] = dict(
           "a key-shortcut match or a type-rule reference; distinct by (spec, document)"),
     assumptions=["reference semantics is right", "graphs rejected by Check are outside the domain (counted under labels)"],
     jobs=[job("composition", "^TestComposition$", (4, 16), (8000, 75000), (600, 3000)),
-          job("allOf-order", "^TestAllOfOrder$", (1, 4), (1500, 20000), (600, 3000))],
+          job("allOf-order", "^TestAllOfOrder$", (1, 4), (1500, 20000), (600, 3000)),
+          job("shadowed-inner-type", "^TestInnerTypeDoesNotRebindRoot$", (1, 2), (400, 6000), (600, 3000))],
 )
 PROPS["C04"] = dict(
     pkg="c04", level="exploration",
